@@ -296,7 +296,7 @@ impl From<IotaDID> for CoreDID {
 
 impl From<IotaDID> for String {
   fn from(did: IotaDID) -> Self {
-    did.into_string()
+    did.0.into_string()
   }
 }
 
